@@ -22,6 +22,7 @@ class C06(Check):
     ASSUMPTIONS = ['reference layout transcribed from the docstrings of sdss_objid / sdss_specobjid',
                    'out-of-range components inside a vN_M_P string are not asserted to raise (DESIGN C06 D)']
     QUICK_SHARDS = 4
+    REQUIRED_COUNTERS = ('repeat_calls_same_objects', 'rejections_observed')
 
     def setup(self):
         import pydl.pydlutils.sdss as S
@@ -133,7 +134,7 @@ class C06(Check):
         getattr(self, 'run_' + case['kind'])(case, out)
 
     # -- objID ---------------------------------------------------------------
-    def _objid_call(self, vals, dtype='int64', conv='array', extras='all'):
+    def _objid_call(self, vals, dtype='int64', conv='array', extras='all', reuse_out=None):
         S = self.S
 
         def arr(f):
@@ -152,7 +153,22 @@ class C06(Check):
         kw = {}
         if extras == 'all':
             kw = dict(rerun=arr('rerun'), skyversion=arr('skyversion'), firstfield=arr('firstfield'))
-        return S.sdss_objid(arr('run'), arr('camcol'), arr('field'), arr('objnum'), **kw)
+        args = (arr('run'), arr('camcol'), arr('field'), arr('objnum'))
+        res = S.sdss_objid(*args, **kw)
+        if reuse_out is not None:
+            keep = [a.copy() if isinstance(a, np.ndarray) else a for a in args] + [kw[k].copy() if isinstance(kw[k], np.ndarray) else kw[k] for k in sorted(kw)]
+            try:
+                res2 = S.sdss_objid(*args, **kw)
+            except Exception as e:
+                reuse_out.fail('repeat-call', 'second call with the same argument objects raised %s: %s' % (type(e).__name__, e))
+            else:
+                reuse_out.expect(np.array_equal(np.asarray(res), np.asarray(res2)), 'repeat-call',
+                                 'second call with the same argument objects returned different IDs')
+            for a, b in zip(list(args) + [kw[k] for k in sorted(kw)], keep):
+                if isinstance(a, np.ndarray):
+                    reuse_out.expect(np.array_equal(a, b), 'repeat-call', 'sdss_objid modified one of the caller\'s arrays')
+            reuse_out.count('repeat_calls_same_objects')
+        return res
 
     def _check_objid_result(self, out, res, vals, n, what):
         exp = [R.pack_objid(*(vals[f][k] for f in OBJ_FIELDS)) for k in range(n)]
@@ -195,7 +211,7 @@ class C06(Check):
     def run_objid_random(self, case, out):
         vals = case['vals']
         n = len(vals['run'])
-        res = self._objid_call(vals, case['dtype'], case['conv'], case['extras'])
+        res = self._objid_call(vals, case['dtype'], case['conv'], case['extras'], reuse_out=out)
         exp = self._check_objid_result(out, res, vals, n, 'random dtype=%s' % case['dtype'])
         if exp is not None:
             self._check_unwrap_objid(out, np.asarray(res).astype(np.int64), vals, n, 'random')
@@ -242,7 +258,7 @@ class C06(Check):
     def _run2d_str(v):
         return 'v%d_%d_%d' % (v // 10000 + 5, (v % 10000) // 100, v % 100)
 
-    def _spec_call(self, vals, run2d_form='int', lineform='none', dtype='int64', conv='array'):
+    def _spec_call(self, vals, run2d_form='int', lineform='none', dtype='int64', conv='array', reuse_out=None):
         S = self.S
 
         def arr(f):
@@ -265,7 +281,24 @@ class C06(Check):
             kw['line'] = arr('line')
         elif lineform == 'index':
             kw['index'] = arr('line')
-        return S.sdss_specobjid(arr('plate'), arr('fiber'), arr('mjd'), arr('run2d'), **kw)
+        args = (arr('plate'), arr('fiber'), arr('mjd'), arr('run2d'))
+        res = S.sdss_specobjid(*args, **kw)
+        if reuse_out is not None:
+            # the same argument objects are used for a second call (a caller packing IDs twice from one table):
+            # the answer must not change and the caller's arrays must not have been rewritten
+            keep = [a.copy() if isinstance(a, np.ndarray) else a for a in args]
+            try:
+                res2 = S.sdss_specobjid(*args, **kw)
+            except Exception as e:
+                reuse_out.fail('repeat-call', 'second call with the same argument objects raised %s: %s' % (type(e).__name__, e))
+            else:
+                reuse_out.expect(np.array_equal(np.asarray(res), np.asarray(res2)), 'repeat-call',
+                                 'second call with the same argument objects returned different IDs')
+            for a, b in zip(args, keep):
+                if isinstance(a, np.ndarray):
+                    reuse_out.expect(np.array_equal(a, b), 'repeat-call', 'sdss_specobjid modified one of the caller\'s arrays', before=b, after=a)
+            reuse_out.count('repeat_calls_same_objects')
+        return res
 
     def _check_spec_result(self, out, res, vals, n, what):
         exp = [R.pack_specobjid(*(vals[f][k] for f in SPEC_FIELDS)) for k in range(n)]
@@ -320,7 +353,7 @@ class C06(Check):
     def run_spec_random(self, case, out):
         vals = case['vals']
         n = len(vals['plate'])
-        res = self._spec_call(vals, case['run2d_form'], case['lineform'], case['dtype'], case['conv'])
+        res = self._spec_call(vals, case['run2d_form'], case['lineform'], case['dtype'], case['conv'], reuse_out=out)
         exp = self._check_spec_result(out, res, vals, n, 'random run2d=%s dtype=%s' % (case['run2d_form'], case['dtype']))
         if exp is not None:
             self._check_unwrap_spec(out, np.asarray(res), vals, n, 'random', specLineIndex=case['lineform'] == 'index')
